@@ -44,11 +44,19 @@ class DM14Server:
         If the command is a read command, then the data requested is sent.
         """
         self._ca.subscribe(self._parse_dm16)
+        command = self.command
+        send_state = self.state
+        if (
+            command is j1939.Command.WRITE.value
+            and send_state == ResponseState.SEND_PROCEED
+        ):
+            # expect the data before the proceed is sent: it may be handled before the send call returns
+            self.state = ResponseState.WAIT_FOR_DM16
         self._send_dm15(
             self.length,
             self.direct,
             self.status,
-            self.state,
+            send_state,
             self.object_count,
             self.sa,
             j1939.ParameterGroupNumber.PGN.DM15,
@@ -57,8 +65,8 @@ class DM14Server:
         )
 
         if (
-            self.command is j1939.Command.READ.value
-            and self.state == ResponseState.SEND_PROCEED
+            command is j1939.Command.READ.value
+            and send_state == ResponseState.SEND_PROCEED
         ):
             self._ca.unsubscribe(self._parse_dm16)
             self._send_dm16()
@@ -78,10 +86,11 @@ class DM14Server:
                     self.edcp,
                 )
         elif (
-            self.command is j1939.Command.WRITE.value
-            and self.state == ResponseState.SEND_PROCEED
+            command is j1939.Command.WRITE.value
+            and send_state == ResponseState.SEND_PROCEED
         ):
-            self.state = ResponseState.WAIT_FOR_DM16
+            # WAIT_FOR_DM16 was entered above (and may already have been left again)
+            pass
         else:
             self._ca.unsubscribe(self._parse_dm16)
             self.state = ResponseState.IDLE
@@ -369,8 +378,12 @@ class DM14Server:
             self.state = ResponseState.SEND_PROCEED
         else:
             self.state = ResponseState.SEND_ERROR
+        expect_data = (
+            self.state == ResponseState.SEND_PROCEED
+            and self.command is j1939.Command.WRITE.value
+        )
         self._wait_for_data()
         mem_data = None
-        if self.state == ResponseState.WAIT_FOR_DM16:
+        if expect_data:
             mem_data = self.data_queue.get(block=True, timeout=max_timeout)
         return mem_data
